@@ -37,6 +37,22 @@ def main():
             vals = sorted(m.value for m in en.PairEnum)
             out["fate"] = "distinct" if vals == sorted([a, b]) else "merged"
             out["py_names"] = sorted(m.name for m in en.PairEnum)
+        elif scope == "variables":
+            import inspect
+            sent = []
+
+            def vhandler(request):
+                sent.append(json.loads(request.content).get("variables"))
+                return httpx.Response(200, json={"data": {"f": 1}})
+            client = pkg.Client(url="http://x", http_client=httpx.Client(transport=httpx.MockTransport(vhandler)))
+            params = [n for n in inspect.signature(client.pair_op).parameters if n not in ("self", "kwargs")]
+            out["py_names"] = params
+            if len(params) != 2:
+                out["fate"] = "merged"
+            else:
+                client.pair_op(**{params[0]: 1, params[1]: 2})
+                out["sent"] = sent
+                out["fate"] = "distinct" if sent and sent[-1] == {a: 1, b: 2} else "merged"
         elif scope == "ops":
             sent = []
 
